@@ -14,16 +14,16 @@ Lemma mac3_sorted_spec rec p acc x y : mul_ok p = true -> rec_ok rec (length x +
      else toom3 rec p acc x y) = Ret r /\ adds acc r (val x * val y).
 Proof.
   intros Hp Hrec Wa Wx Wy Hxy Hr.
-  pose proof (mul_ok_inv p Hp) as (_ & _ & Hlc & Hlm & Hhc & Hhm & Hkc & Hkm & _).
-  rewrite Hlc, Hhc, Hkc. cbn [cmp_eval].
-  destruct (Z.leb_spec (lenZ x) (mp_long_max p)) as [Hl|Hl].
+  pose proof (mul_ok_inv p Hp) as (_ & _ & Hlc & Hlm & _ & _ & Hkc & Hkm & _).
+  rewrite (eff_spec _ _ _ Hlc), (eff_spec _ _ _ Hkc).
+  destruct (Z.leb_spec (lenZ x) (eff (mp_long_cmp p) (mp_long_max p))) as [Hl|Hl].
   { apply long_mul_spec; auto.
     - apply room_len; auto.
     - apply fits_lt with (m := lenZ x + lenZ y); [unfold lenZ; lia|exact Hr]. }
   assert (H2 : (2 <= length x)%nat) by (unfold lenZ in Hl; lia).
-  destruct (Z.leb_spec (lenZ x * mp_half_mul p) (lenZ y)) as [Hh|Hh].
+  destruct (cmp_eval (mp_half_cmp p) (lenZ x * mp_half_mul p) (lenZ y)).
   { apply half_kara_spec; auto. lia. }
-  destruct (Z.leb_spec (lenZ x) (mp_kara_max p)) as [Hk|Hk].
+  destruct (Z.leb_spec (lenZ x) (eff (mp_kara_cmp p) (mp_kara_max p))) as [Hk|Hk].
   { apply karatsuba_spec; auto. }
   apply toom3_spec; auto. unfold lenZ in *. lia.
 Qed.
@@ -33,12 +33,17 @@ Lemma mac3_body_spec rec p acc b c : mul_ok p = true -> rec_ok rec (length b + l
   exists r, mac3_body rec p acc b c = Ret r /\ adds acc r (val b * val c).
 Proof.
   intros Hp Hrec Wa Wb Wc Hr. unfold mac3_body.
-  pose proof (mul_ok_inv p Hp) as (_ & Hsw & _). rewrite Hsw. cbn [cmp_eval].
-  destruct (Z.ltb_spec (lenZ b) (lenZ c)) as [Hlt|Hge].
-  - apply mac3_sorted_spec; auto. unfold lenZ in Hlt. lia.
+  pose proof (mul_ok_inv p Hp) as (_ & Hsw & _).
+  assert (Hcase : (cmp_eval (mp_swap_cmp p) (lenZ b) (lenZ c) = true /\ lenZ b <= lenZ c) \/
+                  (cmp_eval (mp_swap_cmp p) (lenZ b) (lenZ c) = false /\ lenZ c <= lenZ b)).
+  { destruct (mp_swap_cmp p); try discriminate; cbn [cmp_eval].
+    - destruct (Z.ltb_spec (lenZ b) (lenZ c)); [left|right]; split; auto; lia.
+    - destruct (Z.leb_spec (lenZ b) (lenZ c)); [left|right]; split; auto; lia. }
+  destruct Hcase as [[E Hle]|[E Hle]]; rewrite E.
+  - apply mac3_sorted_spec; auto. unfold lenZ in Hle. lia.
   - rewrite (Z.mul_comm (val b)). apply mac3_sorted_spec; auto.
     + rewrite Nat.add_comm. exact Hrec.
-    + unfold lenZ in Hge. lia.
+    + unfold lenZ in Hle. lia.
     + apply room_sym; auto.
 Qed.
 
